@@ -1,8 +1,7 @@
 /-
   RoProofs.MultiB.GroupBy — GroupBy delivers one substream per key, in order of first occurrence,
-  each carrying the values of its key and ending the way the source ends — on the inputs outside the
-  two known deviations (`Known.groupByLate`, `Known.groupByErrorCompletesGroups`), which are
-  witnessed below.
+  each carrying the values of its key and ending the way the source ends (completion or error) — on
+  the inputs outside the one known deviation left (`Known.groupByLate`), which is witnessed below.
 -/
 import RoProofs.MultiB.Core
 import RoModel.MultiB.GroupBy
@@ -736,55 +735,83 @@ theorem groupBy_complete [DecidableEq κ] (key : α → Nat → κ) (delay : Nat
     obtain ⟨h1, h2, h3⟩ := hatt q hq
     simp [Subj.complete, h1, h2, h3]
 
-/-- the source ends with an error before any value -/
-theorem groupBy_error_first [DecidableEq κ] (key : α → Nat → κ) (delay : Nat) (e : Err) :
-    let a := (groupByM key delay).abs (oneSrc ([] : List α) (some (.error e)))
-    viewOut ((groupFinish a.st).groups.map (·.2)) a.out = Spec.groupBy key (oneSrc [] (some (.error e))) := by
-  rfl
+/-- the source fails and no recorder is late: every group receives the error -/
+theorem groupBy_error [DecidableEq κ] (key : α → Nat → κ) (delay : Nat) (hd : delay ≤ 1) (vs : List α) (e : Err) :
+    let a := (groupByM key delay).abs (oneSrc vs (some (.error e)))
+    viewOut ((groupFinish a.st).groups.map (·.2)) a.out = Spec.groupBy key (oneSrc vs (some (.error e))) := by
+  intro a
+  generalize hb : (vs.map (fun v => ((0 : Nat), Ev.next v))).foldl (groupByM key delay).absStep (groupByM key delay).absInit = b
+  have hm : Mid delay b (kvOf key vs) := by
+    have := mid_values key delay vs _ _ (mid_init key delay)
+    rw [hb] at this
+    simpa [kvOf] using this
+  have hpend := hm.eager hd
+  have ha : a = { st := { b.st with groups := b.st.groups.map (fun p => (p.1, ((p.2.error e).1.complete).1)), mapped := false },
+                  out := b.out ++ [.error e], running := false } := by
+    show (oneSrc vs (some (Ev.error e))).foldl _ _ = _
+    simp only [oneSrc, List.foldl_append, hb, Option.toList, List.map_cons, List.map_nil, List.foldl_cons, List.foldl_nil]
+    simp only [Machine.absStep, hm.run, if_true]
+    have hst : (((groupByM key delay).step b.st 0 (Ev.error e)).st : GroupSt α κ) =
+        { b.st with groups := b.st.groups.map (fun p => (p.1, ((p.2.error e).1.complete).1)), mapped := false } := by
+      simp [groupByM, groupByStep, groupCloseAll, List.map_map, Function.comp_def]
+    have hem : ((groupByM key delay).step b.st 0 (Ev.error e)).emits = [.error e] := rfl
+    have hun : ((groupByM key delay).step b.st 0 (Ev.error e)).unsubAll = false := rfl
+    rw [hst, hem, hun]
+    simp only [groupByM]
+    rw [groupTick_nil]
+    · rfl
+    · exact hpend
+  rw [ha]
+  simp only
+  rw [groupFinish_nil _ (show ({ b.st with groups := b.st.groups.map (fun p => (p.1, ((p.2.error e).1.complete).1)), mapped := false } : GroupSt α κ).pending = [] from hpend),
+    spec_oneSrc key vs (some (.error e)) (by intro x hx; cases hx; rfl), hm.out, gb_viewOut_append]
+  simp only
+  have hatt := view_attached _ _ hm.inv hpend
+  have hlen : b.st.groups.length = (b.st.groups.map (fun p : κ × Subj α => (p.1, ((p.2.error e).1.complete).1))).length := by simp
+  rw [hlen, view_groups _ (fun k => gvals (kvOf key vs) k ++ [.error e])]
+  · have hk : (b.st.groups.map (fun p : κ × Subj α => (p.1, ((p.2.error e).1.complete).1))).map (·.1) = b.st.groups.map (·.1) := by
+      rw [List.map_map]; rfl
+    rw [hk, hm.inv.keys]
+    rfl
+  · intro p hp
+    obtain ⟨q, hq, rfl⟩ := List.mem_map.1 hp
+    obtain ⟨h1, h2, h3⟩ := hatt q hq
+    simp [Subj.complete, Subj.error, h1, h2, h3]
 
-/-- **GroupBy = Spec.groupBy** outside the two known deviations: every recorder subscribes before
-    the source ends (`delay ≤ 1`, or the source never ends), and the source does not end with an
-    error after having delivered values. -/
+/-- **GroupBy = Spec.groupBy** whenever every recorder subscribes before the source ends
+    (`delay ≤ 1`, or the source never ends) — the late-subscriber deviation of the unicast subject is
+    the only class left out (since the fix 85e48d9 a source error reaches the groups). -/
 theorem groupBy_spec_partial {α κ : Type} [DecidableEq κ] (key : α → Nat → κ) (delay : Nat)
     (scripts : List (List (Ev α))) (hlen : scripts.length ≤ 1) (order : List Nat)
-    (h1 : Known.groupByLate delay (arrivals (scriptsFn scripts) order) = false)
-    (h2 : Known.groupByErrorCompletesGroups (arrivals (scriptsFn scripts) order) = false) :
+    (h1 : Known.groupByLate delay (arrivals (scriptsFn scripts) order) = false) :
     viewOut ((run (groupByM key delay) scripts order).m.groups.map (·.2)) (run (groupByM key delay) scripts order).out
       = Spec.groupBy key (arrivals (scriptsFn scripts) order) := by
   rw [run_out_abs _ (groupBy_allHot key delay) scripts hlen order,
     run_st_abs _ (groupBy_allHot key delay) scripts hlen order]
   obtain ⟨vs, t, harr, ht⟩ := arrivals_single (scriptsFn scripts) (scriptsFn_single scripts hlen) order
-  rw [harr] at h1 h2 ⊢
+  rw [harr] at h1 ⊢
   unfold Known.groupByLate at h1
-  unfold Known.groupByErrorCompletesGroups at h2
-  rw [stop_oneSrc vs t ht] at h1 h2
-  rw [body_oneSrc vs t ht, valsOf_values] at h2
+  rw [stop_oneSrc vs t ht] at h1
   cases t with
   | none => exact groupBy_never key delay vs
   | some x =>
+    have hd : delay ≤ 1 := by
+      simp at h1; omega
     cases x with
     | next v => have := ht _ rfl; cases this
-    | complete =>
-      have hd : delay ≤ 1 := by
-        simp at h1; omega
-      exact groupBy_complete key delay hd vs
-    | error e =>
-      have : vs = [] := by simpa using h2
-      subst this
-      exact groupBy_error_first key delay e
+    | complete => exact groupBy_complete key delay hd vs
+    | error e => exact groupBy_error key delay hd vs e
 
-
-/-- the special case of recorders that subscribe at once or after one notification -/
+/-- the special case of recorders that subscribe at once or after one notification: in full -/
 theorem groupBy_spec_eager {α κ : Type} [DecidableEq κ] (key : α → Nat → κ) (delay : Nat) (hd : delay ≤ 1)
-    (scripts : List (List (Ev α))) (hlen : scripts.length ≤ 1) (order : List Nat)
-    (h2 : Known.groupByErrorCompletesGroups (arrivals (scriptsFn scripts) order) = false) :
+    (scripts : List (List (Ev α))) (hlen : scripts.length ≤ 1) (order : List Nat) :
     viewOut ((run (groupByM key delay) scripts order).m.groups.map (·.2)) (run (groupByM key delay) scripts order).out
       = Spec.groupBy key (arrivals (scriptsFn scripts) order) := by
-  apply groupBy_spec_partial key delay scripts hlen order ?_ h2
+  apply groupBy_spec_partial key delay scripts hlen order ?_
   have : decide (2 ≤ delay) = false := by simp; omega
   simp [Known.groupByLate, this]
 
-/-! ### the two deviations, and a concrete instance of the theorem -/
+/-! ### the remaining deviation, and concrete instances of the theorem -/
 
 /-- a recorder that subscribes after the source completed gets only `Complete`: the queued value is lost -/
 theorem groupBy_late_witness :
@@ -793,17 +820,17 @@ theorem groupBy_late_witness :
     Spec.groupBy (fun (v : Int) (_ : Nat) => v) (arrivals (scriptsFn [[Ev.next (1:Int), .complete]]) [0, 0]) = [.next [.next 1, .complete], .complete] := by
   decide
 
-/-- when the (hot) source errors, the groups are completed instead of receiving the error -/
-theorem groupBy_error_witness :
-    let r := run (groupByM (fun (v : Int) (_ : Nat) => v) 0) [[.next 1, .error (.user 7)]] [0, 0]
-    viewOut (r.m.groups.map (·.2)) r.out = [.next [.next 1, .complete], .error (.user 7)] ∧
-    Spec.groupBy (fun (v : Int) (_ : Nat) => v) (arrivals (scriptsFn [[Ev.next (1:Int), .error (.user 7)]]) [0, 0]) = [.next [.next 1, .error (.user 7)], .error (.user 7)] := by
+/-- a source error reaches the groups (and the late-subscriber deviation shows for errors too) -/
+example :
+    (let r := run (groupByM (fun (v : Int) (_ : Nat) => v) 0) [[.next 1, .error (.user 7)]] [0, 0]
+     viewOut (r.m.groups.map (·.2)) r.out) = [.next [.next 1, .error (.user 7)], .error (.user 7)] ∧
+    (let r := run (groupByM (fun (v : Int) (_ : Nat) => v) 2) [[.next 1, .error (.user 7)]] [0, 0]
+     viewOut (r.m.groups.map (·.2)) r.out) = [.next [.error (.user 7)], .error (.user 7)] := by
   decide
 
 /-- the hypotheses of `groupBy_spec_partial` hold on a run with two keys, and the result is the expected one -/
 example :
     Known.groupByLate 1 (arrivals (scriptsFn [[Ev.next (1:Int), .next 2, .next 3, .complete]]) [0, 0, 0, 0]) = false ∧
-    Known.groupByErrorCompletesGroups (arrivals (scriptsFn [[Ev.next (1:Int), .next 2, .next 3, .complete]]) [0, 0, 0, 0]) = false ∧
     (let r := run (groupByM (fun (v : Int) (_ : Nat) => v % 2) 1) [[.next 1, .next 2, .next 3, .complete]] [0, 0, 0, 0]
      viewOut (r.m.groups.map (·.2)) r.out) = [.next [.next 1, .next 3, .complete], .next [.next 2, .complete], .complete] ∧
     Spec.groupBy (fun (v : Int) (_ : Nat) => v % 2) (arrivals (scriptsFn [[Ev.next (1:Int), .next 2, .next 3, .complete]]) [0, 0, 0, 0])
@@ -815,6 +842,6 @@ example :
      viewOut (r.m.groups.map (·.2)) r.out)
       = Spec.groupBy (fun (v : Int) (_ : Nat) => v % 2) (arrivals (scriptsFn [[Ev.next (1:Int), .next 2, .next 3, .complete]]) [0, 0, 0, 0]) :=
   groupBy_spec_partial (fun (v : Int) (_ : Nat) => v % 2) 1 [[.next 1, .next 2, .next 3, .complete]] (by decide) [0, 0, 0, 0]
-    (by decide) (by decide)
+    (by decide)
 
 end Ro.MultiB
